@@ -84,6 +84,10 @@ class Session:
                 ok = it.call(it.getattr(tf, "define_custom_type"), [d, source_path], {})
                 if not ok:
                     raise AnalysisError("shape declares a type twice")
+            # as in a real run, every declared type has been resolved by its bare name (its own class is
+            # generated: enums first, then structs) before an object that uses it is generated
+            for d in sorted(decls, key=lambda d: 0 if d.tag == "enum" else 1):
+                it.call(it.getattr(tf, "get_type"), [d.attrs["name"]], {})
             gen = it.call(it.ocg.env["ObjectCodeGenerator"], [class_name, tf], {})
             for ins in instrs:
                 it.call(it.getattr(gen, "generate_instruction"), [ins], {})
@@ -126,7 +130,9 @@ class Skeleton:
 
     def _placeholder(self, p):
         if isinstance(p, Sym):
-            ident = "h_" + re.sub(r"\W+", "_", p.tag).strip("_") + "_%d" % p.id
+            # tags are unique within a shape (Namer counters), so the identifier is a function of the tag only:
+            # the reference side recomputes the same identifiers from a fresh instance of the shape
+            ident = "h_" + re.sub(r"\W+", "_", p.tag).strip("_")
             info = {"kind": "sym", "tag": p.tag, "preds": dict(p.preds), "wild": p.wild, "prov": _prov(p)}
         else:
             ident = "h_int_" + re.sub(r"\W+", "_", p.expr).strip("_")
